@@ -30,6 +30,7 @@ Effect(eff, o) ==
       [] eff = "upk" -> [o EXCEPT !.su = @ + 1, !.ul = @ + 1]   \* revive of a terminated unit into the user-defined pool
       [] eff = "upr" -> [o EXCEPT !.su = @ + 1]                  \* revive in the same user pool: the unit still exists
       [] eff = "p1f" -> [o EXCEPT !.s1 = @ + 1, !.ul = @ - 1]   \* revive from the user pool into a built-in one: the unit is freed
+      [] eff = "upm" -> [o EXCEPT !.ul = IF o.nx > 1 THEN @ + 1 ELSE @]   \* the ULT of another stream's new main scheduler gets a unit of a user-defined pool (needs a second stream)
       [] eff = "ran" -> [o EXCEPT !.ran = @ + 1]                 \* create_to: the new ULT ran before the call returned
       [] eff = "nx"  -> [o EXCEPT !.nx = @ + 1]
       [] eff = "k2"  -> [o EXCEPT !.k2 = 33]
@@ -37,12 +38,13 @@ Effect(eff, o) ==
       [] OTHER       -> o
 NewUnits(eff) == IF eff \in {"p1", "p0", "up", "upk", "upr", "p1f"} THEN 1 ELSE 0
 KeepDelta(eff) == IF eff = "upk" THEN 1 ELSE IF eff = "p1f" THEN -1 ELSE 0
+KeepDeltaIn(eff, o) == IF eff = "upm" THEN (IF o.nx > 1 THEN 1 ELSE 0) ELSE KeepDelta(eff)
 
 InitOk == ~up /\ up' = TRUE /\ must' = FALSE /\ UNCHANGED <<obs, created, keep>>
 InitFail == ~up /\ ~must /\ must' = TRUE /\ UNCHANGED <<up, obs, created, keep>>
 \* set-up of pre-existing objects by calls that are not under fault
 Setup(o) == up /\ obs' = o /\ created' = Queued(o) /\ keep' = 1 /\ UNCHANGED <<up, must>>
-CallOk(eff) == up /\ obs' = Effect(eff, obs) /\ created' = created + NewUnits(eff) /\ keep' = keep + KeepDelta(eff) /\ must' = FALSE /\ UNCHANGED up
+CallOk(eff) == up /\ obs' = Effect(eff, obs) /\ created' = created + NewUnits(eff) /\ keep' = keep + KeepDeltaIn(eff, obs) /\ must' = FALSE /\ UNCHANGED up
 CallFail(eff) == up /\ ~must /\ must' = TRUE /\ UNCHANGED <<up, obs, created, keep>>
 \* the follow-up workload runs every queued unit exactly once
 Settle == up /\ ~must
